@@ -20,7 +20,7 @@ pub struct Prog {
 /// Components: V vertex-only, H host-only, B both, F fragment-input-only, N nested host, R runtime-array host, W workgroup/private host.
 pub fn programs() -> Vec<Prog> {
     let mut out = vec![];
-    let comps = ["V", "H", "B", "F", "N", "W"];
+    let comps = ["V", "H", "B", "F", "N", "W", "L"];
     let mut masks: Vec<(usize, bool, bool)> = vec![];
     for m in 1..(1usize << comps.len()) {
         // every single component, every pair, the full set, and a few triples
@@ -30,7 +30,7 @@ pub fn programs() -> Vec<Prog> {
         }
     }
     // runtime-array variants
-    for m in [0usize, 1, 2, 9, 63] {
+    for m in [0usize, 1, 2, 9, 63, 127] {
         masks.push((m, true, m % 2 == 1));
     }
     for (m, with_r, extras) in masks {
@@ -73,6 +73,13 @@ pub fn programs() -> Vec<Prog> {
             src.push_str("struct WData { w: vec4<f32> };\nvar<workgroup> wg_data: WData;\nstruct PData { p: vec4<u32> };\nvar<private> pv_data: PData;\n");
             structs.push(RoleStruct { name: "WData", host: true, rts: false });
             structs.push(RoleStruct { name: "PData", host: true, rts: false });
+        }
+        if has("L") {
+            // member shapes must not influence the derive list: long arrays, nested long arrays
+            src.push_str(&format!("struct LInner {{ big: array<vec4<f32>, 33> }};\nstruct LOuter {{ inner: LInner, grid: array<array<u32, 40>, 2>, small: array<f32, 32> }};\n@group(0) @binding({binding}) var<storage, read> long_arrays: LOuter;\n"));
+            binding += 1;
+            structs.push(RoleStruct { name: "LInner", host: true, rts: false });
+            structs.push(RoleStruct { name: "LOuter", host: true, rts: false });
         }
         if with_r {
             src.push_str(&format!("struct RData {{ n: vec4<u32>, items: array<vec4<f32>> }};\n@group(0) @binding({binding}) var<storage, read> r_data: RData;\n"));
@@ -160,6 +167,7 @@ pub fn run(tier: &str) -> i32 {
     if !thorough {
         // quick: every single component and the full set, plus runtime-array variants
         progs.retain(|p| p.key.len() <= "roles=XX".len() || p.key.contains("VHBFNW") || p.key.contains('R'));
+        let _ = 0;
     }
     let configs = all_configs_192();
     let items: Vec<(usize, usize)> = (0..progs.len()).flat_map(|p| (0..configs.len()).map(move |c| (p, c))).collect();
